@@ -26,13 +26,13 @@ status() { echo "$1" | tee -a $LOG; }
 cd "$W"
 # demo on the clean tree
 cp "$DEMO" "$W/$DEMO_DIR/seeded_demo_test.go"
-if (cd "$W/$DEMO_DIR" && timeout 600 go test -vet=off -count=1 -run "$RUNRE" . >>$LOG 2>&1); then CLEAN_DEMO=pass; else CLEAN_DEMO=fail; fi
+if (cd "$W/$DEMO_DIR" && timeout 900 ${DEMO_GO:-go} test ${DEMO_FLAGS:-} -vet=off -count=1 -run "$RUNRE" . >>$LOG 2>&1); then CLEAN_DEMO=pass; else CLEAN_DEMO=fail; fi
 rm -f "$W/$DEMO_DIR/seeded_demo_test.go"
 if ! git apply "$SRC/patch.diff" >>$LOG 2>&1; then status "RESULT $ID-$K patch-does-not-apply"; exit 1; fi
 if ! go build ./... >>$LOG 2>&1; then status "RESULT $ID-$K does-not-compile"; exit 1; fi
 if timeout 1500 go test -vet=off -count=1 ./... >>$LOG 2>&1; then SUITE=pass; else SUITE=fail; fi
 cp "$DEMO" "$W/$DEMO_DIR/seeded_demo_test.go"
-if (cd "$W/$DEMO_DIR" && timeout 600 go test -vet=off -count=1 -run "$RUNRE" . >>$LOG 2>&1); then MUT_DEMO=pass; else MUT_DEMO=fail; fi
+if (cd "$W/$DEMO_DIR" && timeout 900 ${DEMO_GO:-go} test ${DEMO_FLAGS:-} -vet=off -count=1 -run "$RUNRE" . >>$LOG 2>&1); then MUT_DEMO=pass; else MUT_DEMO=fail; fi
 rm -f "$W/$DEMO_DIR/seeded_demo_test.go"
 CONFIRMED=no
 if [ $SUITE = pass ] && [ $CLEAN_DEMO = pass ] && [ $MUT_DEMO = fail ]; then CONFIRMED=yes; fi
